@@ -527,6 +527,7 @@ pub fn check(c: &Case, _known: &Known) -> Outcome {
     let (r1, r2) = match (exec::run(&c.base.db, &sql1), exec::run(&c.base.db, &sql2)) {
         (Ok(a), Ok(b)) => (a, b),
         (Err(_), _) => return Outcome::skip("base SQL fails (C07's subject)").class("base_sql_fails"),
+        (Ok(_), Err(e)) if e.msg().contains("more than 100000 rows") => return Outcome::skip("engine_limit").class("engine_limit"),
         (Ok(_), Err(e)) => {
             let mut o = Outcome::fail(
                 "the rewritten program's SQL fails on SQLite while the base program's runs",
